@@ -90,22 +90,35 @@ def twin_blocks(P, rep, rule="SIB.kinds"):
                               key="%s|%s|%s|%d" % (rule, label, k, gi), witness="segment/section without %s models, defaults given at the feature level" % k)
             else:
                 rep.ok(rule, "%s: block %d identical for the four kinds (%d lines)" % (label, gi, len(ref)), F.nloc(grp[0][0]), F.qn)
-        # order of the lists handed on
+        # order of the lists handed on (kinds and origin are read from the resolved types and declarations, not from names)
         for x in F.walk():
-            args = None
+            argn = None
             if x.get("k") == "CXXMemberCallExpr" and x["c"][0].get("n") in ("emplace_back", "get_vector"):
-                args = [norm.render(P, a) for a in x["c"][1:]]
-            if args:
+                argn = [sc(a) for a in x["c"][1:]]
+            if argn:
                 kinds_seq = []
-                for a in args:
-                    m = re.search(r"(temperature|composition|grains|velocity)_models$", a)
-                    if m:
-                        kinds_seq.append(m.group(1))
+                origins = set()
+                shown = []
+                for a in argn:
+                    if a is None or a.get("k") not in ("DeclRefExpr", "MemberExpr"):
+                        continue
+                    m = re.search(r"Models::(Temperature|Composition|Grains|Velocity)::Interface", a.get("t", ""))
+                    if not m or "vector" not in a.get("t", ""):
+                        continue
+                    kinds_seq.append(m.group(1).lower())
+                    shown.append(norm.render(P, a))
+                    d = P.d(a.get("r"))
+                    origins.add("field" if a.get("k") == "MemberExpr" else (d.get("storage") or "local"))
+                    # two locals of one kind but different scope level (feature-wide vs per-section): tell them apart by the declaring block
+                    if a.get("k") == "DeclRefExpr":
+                        decl = [v for v in F.walk() if v.get("k") == "VarDecl" and v.get("r") == a.get("r")]
+                        blk = astq.enclosing(F, decl[0], ("CompoundStmt",)) if decl else None
+                        origins.discard(d.get("storage") or "local")
+                        origins.add(("local", blk["i"] if blk else None))
                 if len(kinds_seq) >= 2:
                     n += 1
-                    prefixes = {re.sub(r"(temperature|composition|grains|velocity)_models$", "", a) for a in args if re.search(r"(temperature|composition|grains|velocity)_models$", a)}
-                    if len(prefixes) != 1:
-                        rep.violation(rule, "%s: model lists of different origin are mixed: %s" % (label, [a for a in args if a.endswith("_models")]), F.nloc(x), F.qn,
+                    if len(origins) != 1:
+                        rep.violation(rule, "%s: model lists of different origin are mixed: %s" % (label, shown), F.nloc(x), F.qn,
                                       norm.render(P, x)[:160], "one kind takes its defaults from another level (feature vs section) than the others",
                                       key="%s|%s|mixed-origin" % (rule, label), witness="section-level models of that kind, segments without their own")
                     elif kinds_seq == list(KINDS):
